@@ -176,6 +176,8 @@ func runC18(c *Ctx, r *Report) {
 	r.Rule("R18.3", "explicit aborts: os.Exit only from the keep-list (R17.7); no recover()")
 	checkExitSites(c, r, "R18.3", false)
 
+	c18LookAhead(c, r)
+	c18SliceBounds(c, r)
 	r.Rule("R18.7", "a failed read ends the read loop (= R17.12): no path on which a reader's low-level read returned a non-nil, unclassified error leads back to the same read")
 	sub := NewReport("tmp", r.Tier)
 	c17ReadErrors(c, sub)
